@@ -196,9 +196,30 @@ def _build(ch):
     return {"doc": gen.base_doc(comps, paths=paths), "key": "builder"}
 
 
+MEDIAS = ["application/json", "application/merge-patch+json", "application/vnd.api+json", "application/json; charset=utf-8", "application/x-www-form-urlencoded",
+          "multipart/form-data", "application/octet-stream", "text/plain", "application/xml", "application/x-yaml", "*/*"]
+
+
+def _media_sets():
+    """One request body documenting two (thorough: three) media types, every ordered selection: each is handled or named."""
+    ref = lambda n: {"$ref": f"#/components/schemas/{n}"}  # noqa: E731
+    comps = {f"Body{i}": {"type": "object", "properties": {f"f{i}": {"type": "string"}}} for i in range(3)}
+
+    def sch(media, i):
+        return {"type": "string", "format": "binary"} if media == "application/octet-stream" else ({"type": "string"} if media == "text/plain" else ref(f"Body{i}"))
+    for k in (1, 2, 3):
+        for medias in itertools.permutations(MEDIAS, k):
+            if k == 3 and not all(m in MEDIAS[:6] for m in medias):
+                continue
+            body = {"required": True, "content": {m: {"schema": sch(m, i)} for i, m in enumerate(medias)}}
+            doc = gen.base_doc(dict(comps), paths={"/b": {"post": _op("sendBody", None, "/b", body=body)}})
+            yield {"labels": [f"media{i}={m}" for i, m in enumerate(medias)], "payload": {"doc": doc, "key": f"media-set{k}"}}
+
+
 def cases(tier):
     yield from _op_pairs()
     yield from _schema_pairs()
+    yield from _media_sets()
     bound = 2 if tier == "quick" else 3
     for labels, payload, _d in explore(_build, bound=bound, limit=6000 if tier == "quick" else 120000):
         yield {"labels": labels, "payload": payload}
@@ -308,6 +329,12 @@ def run_case(p):
             refname = f"/components/schemas/{sname}"
             named = sname in diag
             got = claims.get(refname)
+            if not got:
+                # a schema used as a multipart body is re-registered by the generator under the body's name: find it by class name
+                norm = lambda t: "".join(ch for ch in t if ch.isalnum()).lower()  # noqa: E731
+                alt = [(kind, c) for lst in claims.values() for kind, c in lst if norm(c["class"]) == norm(sname) and not c["name"].startswith("/components/")]
+                if len(alt) == 1:
+                    got = alt
             ok = False
             if got:
                 kind, c = got[0]
